@@ -33,6 +33,7 @@ Inductive bexpr :=
 | XFld (k : nat)                 (* data array of the field passed as argument k, element df *)
 | XScl (k : nat)                 (* scalar passed as argument k *)
 | XRed                           (* the reduction variable *)
+| XLoc                           (* this thread's element l_red(1,th_idx) of the reproducible-reduction array *)
 | XLit (z : Z)
 | XNeg (e : bexpr)
 | XBin (o : binop) (a b : bexpr)
@@ -51,6 +52,7 @@ Record store := mkStore {
   fdat : fid -> Z -> Z;            (* field data: field id, DoF index *)
   sval : nat -> Z;                 (* read-only scalar arguments, by argument position *)
   rvar : Z;                        (* the reduction variable *)
+  lvar : Z;                        (* the executing thread's element of the local reduction array *)
   rcnt : nat                       (* how many random numbers have been drawn *)
 }.
 
@@ -71,6 +73,7 @@ Fixpoint eval (O : ops) (bind : nat -> fid) (s : store) (df : Z) (e : bexpr) : Z
   | XFld k => fdat s (bind k) df
   | XScl k => sval s k
   | XRed => rvar s
+  | XLoc => lvar s
   | XLit z => z
   | XNeg a => - eval O bind s df a
   | XBin o a b => eval_bin O o (eval O bind s df a) (eval O bind s df b)
@@ -80,7 +83,7 @@ Fixpoint eval (O : ops) (bind : nat -> fid) (s : store) (df : Z) (e : bexpr) : Z
 
 Fixpoint red_free (e : bexpr) : bool :=
   match e with
-  | XRed => false
+  | XRed | XLoc => false
   | XFld _ | XScl _ | XLit _ => true
   | XNeg a | XConv _ _ a => red_free a
   | XBin _ a b | XFn2 _ a b => red_free a && red_free b
@@ -90,20 +93,23 @@ Fixpoint red_free (e : bexpr) : bool :=
 Inductive kern :=
 | KAssign (out : nat) (rhs : bexpr)      (* data array of field argument [out], element df := rhs *)
 | KReduce (rhs : bexpr)                  (* reduction variable := rhs *)
+| KReduceLocal (rhs : bexpr)             (* l_red(1,th_idx) := rhs   (reproducible OpenMP reductions) *)
 | KRandom (out : nat).                   (* call random_number(data(df)) *)
 
 Definition upd_f (s : store) (f : fid) (d : Z) (v : Z) : store :=
   mkStore (fun f' d' => if (Nat.eqb f' f && (d' =? d))%bool then v else fdat s f' d')
-          (sval s) (rvar s) (rcnt s).
-Definition set_red (s : store) (v : Z) : store := mkStore (fdat s) (sval s) v (rcnt s).
+          (sval s) (rvar s) (lvar s) (rcnt s).
+Definition set_red (s : store) (v : Z) : store := mkStore (fdat s) (sval s) v (lvar s) (rcnt s).
+Definition set_loc (s : store) (v : Z) : store := mkStore (fdat s) (sval s) (rvar s) v (rcnt s).
 
 Definition run_iter (O : ops) (bind : nat -> fid) (k : kern) (s : store) (df : Z) : store :=
   match k with
   | KAssign out rhs => upd_f s (bind out) df (eval O bind s df rhs)
   | KReduce rhs => set_red s (eval O bind s df rhs)
+  | KReduceLocal rhs => set_loc s (eval O bind s df rhs)
   | KRandom out =>
       let s1 := upd_f s (bind out) df (o_rand O (rcnt s)) in
-      mkStore (fdat s1) (sval s1) (rvar s1) (S (rcnt s))
+      mkStore (fdat s1) (sval s1) (rvar s1) (lvar s1) (S (rcnt s))
   end.
 
 (* the iterations in the order given *)
@@ -121,6 +127,16 @@ Definition thread_sum (O : ops) (bind : nat -> fid) (k : kern) (s : store) (chun
   rvar (run_loop O bind k chunk (set_red s 0)).
 Definition run_omp_reduction (O : ops) (bind : nat -> fid) (k : kern) (chunks : list (list Z)) (s : store) : store :=
   set_red s (fold_left Z.add (map (thread_sum O bind k s) chunks) (rvar s)).
+
+(* Reproducible OpenMP reductions: l_red(:, 1..nthreads) is zeroed before the parallel region, thread
+   t accumulates its iterations into l_red(1,t), and after the region the elements are added to the
+   reduction variable sequentially, thread 1 first.  [chunks] = iterations per thread (any number of
+   threads; [zeroed] = whether the generated code really zeroes the array: otherwise each element
+   starts from whatever [lvar] holds). *)
+Definition thread_local_sum (O : ops) (bind : nat -> fid) (k : kern) (zeroed : bool) (s : store) (chunk : list Z) : Z :=
+  lvar (run_loop O bind k chunk (if zeroed then set_loc s 0 else s)).
+Definition run_reprod (O : ops) (bind : nat -> fid) (k : kern) (zeroed summed : bool) (chunks : list (list Z)) (s : store) : store :=
+  if summed then set_red s (fold_left Z.add (map (thread_local_sum O bind k zeroed s) chunks) (rvar s)) else s.
 
 Definition zsum (l : list Z) : Z := fold_right Z.add 0 l.
 (* sum over the DoFs in [l] of the summand g *)
@@ -170,7 +186,19 @@ Definition arg_is_field (args : list akind) (k : nat) : bool :=
   match nth_error args k with Some a => is_fld a | None => false end.
 
 (* ------------------------------------------------------------------ one generated invoke *)
+Record reprod_info := mkReprod {
+  rp_local_zeroed : bool;            (* l_red = 0 before the parallel region *)
+  rp_thread_index_set : bool;        (* th_idx = omp_get_thread_num()+1 first thing in the region *)
+  rp_thread_index_private : bool;    (* th_idx in the private clause *)
+  rp_final_sum_all_threads : bool    (* DO th_idx=1,nthreads: red = red + l_red(1,th_idx) after the region *)
+}.
+Inductive omp_form :=
+| OParDo                             (* !$omp parallel do *)
+| ORegion                            (* !$omp parallel ... !$omp do *)
+| OReprod (r : reprod_info).         (* region + reproducible reduction *)
+
 Record omp_dir := mkOmp {
+  omp_form_of : omp_form;
   omp_default_shared : bool;
   omp_private_df : bool;
   omp_reduction_plus_red : bool;     (* reduction(+:<the reduction variable>) present *)
@@ -199,6 +227,9 @@ Inductive dspec :=
 Record docentry := mkDoc { d_name : string; d_args : list akind; d_spec : dspec }.
 
 Definition is_reduction_spec (d : dspec) : bool := match d with DSum _ => true | _ => false end.
+Definition kern_is_local (k : kern) : bool := match k with KReduceLocal _ => true | _ => false end.
+Definition reprod_of (i : instance) : option reprod_info :=
+  match i_omp i with Some o => match omp_form_of o with OReprod r => Some r | _ => None end | None => None end.
 
 (* ------------------------------------------------------------------ the generated obligations *)
 (* (a) the loop body is the documented operation *)
@@ -208,6 +239,8 @@ Definition kern_matches (k : kern) (d : dspec) : Prop :=
       out' = out /\ forall O bind s df, eval O bind s df rhs' = eval O bind s df rhs
   | DSum g, KReduce rhs' =>
       red_free g = true /\ forall O bind s df, eval O bind s df rhs' = rvar s + eval O bind s df g
+  | DSum g, KReduceLocal rhs' =>
+      red_free g = true /\ forall O bind s df, eval O bind s df rhs' = lvar s + eval O bind s df g
   | DRandom out, KRandom out' => out' = out
   | _, _ => False
   end.
@@ -224,9 +257,18 @@ Definition skeleton_ok (i : instance) (d : docentry) : Prop :=
   i_zero_before i = is_reduction_spec (d_spec d) /\
   i_global_sum i = (is_reduction_spec (d_spec d) && i_dm i)%bool /\
   match i_omp i with
-  | None => True
+  | None => kern_is_local (i_kern i) = false
   | Some o => omp_default_shared o = true /\ omp_private_df o = true /\
-              omp_reduction_plus_red o = is_reduction_spec (d_spec d)
+      match omp_form_of o with
+      | OReprod r =>
+          (* reproducible reduction: thread-local accumulation, no reduction clause *)
+          is_reduction_spec (d_spec d) = true /\ kern_is_local (i_kern i) = true /\
+          omp_reduction_plus_red o = false /\
+          rp_local_zeroed r = true /\ rp_thread_index_set r = true /\
+          rp_thread_index_private r = true /\ rp_final_sum_all_threads r = true
+      | _ => kern_is_local (i_kern i) = false /\
+             omp_reduction_plus_red o = is_reduction_spec (d_spec d)
+      end
   end.
 
 Definition instance_ok (i : instance) (d : docentry) : Prop :=
@@ -258,21 +300,27 @@ Definition run_instance (O : ops) (bind : nat -> fid) (L : layout) (i : instance
   match sch with
   | SSerial => run_loop O bind (i_kern i) iters s0
   | SPerm order => run_loop O bind (i_kern i) order s0
-  | SChunks chunks => run_omp_reduction O bind (i_kern i) chunks s0
+  | SChunks chunks =>
+      match reprod_of i with
+      | Some r => run_reprod O bind (i_kern i) (rp_local_zeroed r) (rp_final_sum_all_threads r) chunks s0
+      | None => run_omp_reduction O bind (i_kern i) chunks s0
+      end
   end.
 
 (* ------------------------------------------------------------------ executable helpers (coverage) *)
-Definition setting_eqb (i : instance) (n : string) (dm ann omp : bool) : bool :=
-  (String.eqb (i_name i) n && Bool.eqb (i_dm i) dm && Bool.eqb (i_annexed i) ann &&
-   Bool.eqb (match i_omp i with Some _ => true | None => false end) omp)%bool.
+(* 0 = serial, 1 = parallel do, 2 = parallel region + do, 3 = reproducible reduction *)
+Definition omp_code (i : instance) : nat :=
+  match i_omp i with
+  | None => 0
+  | Some o => match omp_form_of o with OParDo => 1 | ORegion => 2 | OReprod _ => 3 end
+  end%nat.
 
-Definition covered (tbl : list (instance * docentry)) (n : string) (dm ann omp : bool) : bool :=
-  existsb (fun p => setting_eqb (fst p) n dm ann omp) tbl.
+Definition setting_eqb (i : instance) (n : string) (dm ann : bool) (form : nat) : bool :=
+  (String.eqb (i_name i) n && Bool.eqb (i_dm i) dm && Bool.eqb (i_annexed i) ann && Nat.eqb (omp_code i) form)%bool.
 
-Definition all_settings_covered (tbl : list (instance * docentry)) (names : list string) : bool :=
-  forallb (fun n => covered tbl n false false false && covered tbl n false true false &&
-                    covered tbl n true false false && covered tbl n true true false)%bool names.
+Definition covered (tbl : list (instance * docentry)) (n : string) (dm ann : bool) (form : nat) : bool :=
+  existsb (fun p => setting_eqb (fst p) n dm ann form) tbl.
 
-Definition omp_settings_covered (tbl : list (instance * docentry)) (names : list string) : bool :=
-  forallb (fun n => covered tbl n false false true && covered tbl n false true true &&
-                    covered tbl n true false true && covered tbl n true true true)%bool names.
+Definition form_covered (tbl : list (instance * docentry)) (form : nat) (names : list string) : bool :=
+  forallb (fun n => covered tbl n false false form && covered tbl n false true form &&
+                    covered tbl n true false form && covered tbl n true true form)%bool names.
